@@ -10,7 +10,7 @@ c = getattr(m, cls)()
 scratch = tempfile.mkdtemp(prefix='vf')
 tc = TUCache(scratch)
 t0 = time.time()
-exs, info = verify(c, scratch, tc)
+exs, info = c.custom_verify(scratch, tc) if hasattr(c, 'custom_verify') else verify(c, scratch, tc)
 obls = [o for ex in exs for o in ex.obls]
 print(info, len(obls), 'obligations', round(time.time() - t0, 2), 's')
 discharge(obls, timeout_s=int(sys.argv[2]) if len(sys.argv) > 2 and sys.argv[2].isdigit() else 30)
